@@ -310,7 +310,7 @@ func run(c *core.Ctx) error {
 	if c.Thorough() {
 		// async release of epochs (2.1M states), the larger bounds (1.0M) and the in-memory
 		// merge of the persister with unsafe batches (1.6M): about 2 minutes each on 8 workers
-		cfgs = append(cfgs, "ScorchDisk_mc_copy.cfg", "ScorchDisk_mc_disk_thorough.cfg", "ScorchDisk_mc_disk_thorough_big.cfg", "ScorchDisk_mc_memmerge_thorough.cfg", "ScorchDisk_mc_restart_thorough.cfg")
+		cfgs = append(cfgs, "ScorchDisk_mc_copy.cfg", "ScorchDisk_mc_disk_thorough.cfg", "ScorchDisk_mc_disk_thorough_big.cfg", "ScorchDisk_mc_memmerge_thorough.cfg", "ScorchDisk_mc_restart_thorough.cfg", "ScorchDisk_mc_builder_restart.cfg")
 	}
 	for _, cfg := range cfgs {
 		if _, ok := c.ModelCheck("ScorchDisk", cfg, core.Workers(8), core.Timeout(25*time.Minute), core.Heap(8000)); !ok {
